@@ -24,6 +24,7 @@ import (
 	"time"
 
 	imap "github.com/emersion/go-imap/v2"
+	"github.com/emersion/go-imap/v2/imapserver"
 	"github.com/emersion/go-imap/v2/verif/internal/hx"
 	"github.com/emersion/go-imap/v2/verif/internal/kit"
 	"github.com/emersion/go-imap/v2/verif/internal/vconn"
@@ -98,6 +99,98 @@ func transcripts() []transcript {
 		{name: "list-extended-rename", segs: []seg{S("k1 LOGIN \"user\" \"pass\"\r\n"), S("k2 LIST (SUBSCRIBED) \"\" (\"%\" \"a/*\") RETURN (CHILDREN STATUS (MESSAGES))\r\n"), S("k3 RENAME a b\r\nk4 SUBSCRIBE b\r\nk5 UNSUBSCRIBE b\r\nk6 DELETE b\r\n"), S("k7 LSUB \"\" *\r\n"), S("k8 LOGOUT\r\n")}},
 		{name: "no-logout", segs: []seg{S("l1 LOGIN user pass\r\n"), S("l2 SELECT INBOX\r\n"), S("l3 IDLE\r\n")}},
 	}
+}
+
+// ---- the same fault enumeration over the in-memory backend -------------------------------
+
+type countingSess struct {
+	imapserver.Session
+	closes *int32
+}
+
+func (c countingSess) Close() error {
+	atomic.AddInt32(c.closes, 1)
+	return c.Session.Close()
+}
+
+func memTranscripts() []transcript {
+	body := strings.Repeat("Subject: x\r\n\r\nhello world\r\n", 8)
+	return []transcript{
+		{name: "mem-fetch-literals", segs: []seg{S("a1 LOGIN user pass\r\n"), S("a2 SELECT INBOX\r\n"), S("a3 FETCH 1:3 (FLAGS UID BODY[])\r\n"), S("a4 UID FETCH 2 (BODY.PEEK[HEADER] BODY.PEEK[TEXT] ENVELOPE BODYSTRUCTURE)\r\n"), S("a5 LOGOUT\r\n")}},
+		{name: "mem-store-copy-expunge", segs: []seg{S("b1 LOGIN user pass\r\n"), S("b2 SELECT INBOX\r\n"), S("b3 STORE 1:3 +FLAGS (\\Deleted)\r\n"), S("b4 COPY 1:2 Archive\r\nb5 SEARCH DELETED\r\n"), S("b6 EXPUNGE\r\n"), S(fmt.Sprintf("b7 APPEND INBOX {%d+}\r\n%s\r\n", len(body), body)), S("b8 LIST \"\" * RETURN (STATUS (MESSAGES))\r\n"), S("b9 IDLE\r\n"), S("DONE\r\n")}},
+	}
+}
+
+// runMem executes a transcript against the real in-memory backend with the given fault.
+func runMem(w *hx.W, t *transcript, f fault) outcome {
+	var closes int32
+	mem := kit.NewMem(kit.MemCfg{Caps: imap.CapSet{imap.CapIMAP4rev1: {}}, Wrap: func(s imapserver.Session) imapserver.Session { return countingSess{s, &closes} }})
+	defer func() {
+		done := make(chan struct{})
+		go func() { mem.Close(); close(done) }()
+		select {
+		case <-done:
+		case <-time.After(20 * time.Second):
+			// (a leaked connection keeps Server.Close waiting; already reported below)
+		}
+	}()
+	t0 := time.Date(2023, 3, 1, 12, 0, 0, 0, time.UTC)
+	mem.Populate("INBOX", [][]byte{
+		kit.SimpleMessage("one", "bob@example.org", strings.Repeat("first body line\r\n", 400), t0),
+		kit.MultipartMessage("two", t0, bytes.Repeat([]byte("QUJDREVGR0g="), 600)),
+		kit.SimpleMessage("three", "carol@example.org", "tiny", t0),
+	}, nil)
+	mem.Populate("Archive", nil, nil)
+	sig := fmt.Sprintf("%s/%s", t.name, f.kind)
+	desc := fmt.Sprintf("transcript %s (in-memory backend) fault %s at byte %d", t.name, f.kind, f.at)
+	end := w.Begin(sig, desc, 240*time.Second)
+	defer end()
+	c, sv, log := mem.Pipe(func(c, s *vconn.Conn) {
+		switch f.kind {
+		case "eof":
+			s.SetReadFault(f.at, vconn.FaultEOF)
+		case "reset":
+			s.SetReadFault(f.at, vconn.FaultReset)
+		case "writeerr":
+			s.SetWriteFault(f.at)
+		}
+	})
+	r := kit.NewRaw(c, sv, log)
+	// (backstop of 15 s per step: observed latencies are milliseconds; a step that neither parks nor
+	// closes is not a verdict by itself — what is decided below is whether the server lets go of
+	// the connection once the client is gone)
+	cond := sv.WaitParked(15 * time.Second)
+	for _, sg := range t.segs {
+		if cond != "parked" {
+			break
+		}
+		if err := r.Send(sg.data); err != nil {
+			break
+		}
+		cond = sv.WaitParked(15 * time.Second)
+		r.Take()
+	}
+	r.Close()
+	e := &env{w: w}
+	deadline := time.Now().Add(30 * time.Second)
+	for !sv.Closed() && time.Now().Before(deadline) {
+		time.Sleep(100 * time.Microsecond)
+	}
+	if !sv.Closed() {
+		e.leak(sig, desc, "server connection goroutine still holds the connection open after the peer is gone")
+		return outcome{}
+	}
+	for atomic.LoadInt32(&closes) == 0 && time.Now().Before(deadline) {
+		time.Sleep(100 * time.Microsecond)
+	}
+	if n := atomic.LoadInt32(&closes); n != 1 {
+		w.Violation("session-close-count@"+sig, fmt.Sprintf("%s: Session.Close called %d times", desc, n), map[string]interface{}{"case": desc})
+	}
+	if p := mem.Log.Panics(); len(p) > 0 {
+		w.Violation("server-panic@"+hx.PanicSite(p[0]), desc+": "+strings.SplitN(p[0], "\n", 2)[0], map[string]interface{}{"case": desc, "log": p[0]})
+	}
+	e.census(sig, desc)
+	return outcome{nIn: sv.NRead(), nOut: sv.NWritten()}
 }
 
 type env struct {
@@ -574,6 +667,41 @@ func body(w *hx.W) {
 			continue
 		}
 		e.runTranscript(j.t, j.f)
+		nFault++
+		w.Class("fault/" + j.f.kind + "/" + j.t.name)
+	}
+	// the same enumeration with the real in-memory backend behind the protocol layer
+	mts := memTranscripts()
+	var mjobs []job
+	for ti := range mts {
+		t := &mts[ti]
+		base := runMem(w, t, fault{kind: "none"})
+		stride := int64(1)
+		if w.Quick() {
+			stride = 3
+		}
+		for k := int64(0); k <= base.nIn; k += stride {
+			mjobs = append(mjobs, job{t, fault{"eof", k}}, job{t, fault{"reset", k}})
+		}
+		for k := int64(0); k <= base.nOut; k++ {
+			// literal bodies: every 16th offset plus everything near the line structure
+			if base.nOut > 3000 && k > 600 && k%16 != 0 {
+				continue
+			}
+			if k%stride == 0 {
+				mjobs = append(mjobs, job{t, fault{"writeerr", k}})
+			}
+		}
+		if w.Shard == 0 {
+			w.Metric("transcript_bytes_in/"+t.name, base.nIn)
+			w.Metric("transcript_bytes_out/"+t.name, base.nOut)
+		}
+	}
+	for i, j := range mjobs {
+		if !w.Mine(i) {
+			continue
+		}
+		runMem(w, j.t, j.f)
 		nFault++
 		w.Class("fault/" + j.f.kind + "/" + j.t.name)
 	}
